@@ -176,7 +176,9 @@ func (rt *runtime) newError(name string, message Value, stackFramesToPop int) *o
 
 	obj := rt.newErrorObject(name, message, stackFramesToPop)
 	obj.prototype = rt.global.ErrorPrototype
-	if name != "" {
+	if name != "" && name != classErrorName {
+		// An instance made by Error itself inherits its name from
+		// Error.prototype (ES5 15.11.5: no special properties).
 		obj.defineProperty("name", stringValue(name), 0o101, false)
 	}
 	return obj
